@@ -64,9 +64,27 @@ Long == {[what |-> W0, fields |-> <<[name |-> NA, type |-> TCK(k), items |-> Seq
 \* three fields of any three kinds (thorough tier)
 Triples == {[m |-> [what |-> <<0, 0, 0, 128>>, fields |-> <<Fld(NA, k, 1), Fld(<<99, 195, 169>>, k2, 2), Fld(NB, k3, 3)>>], d |-> (Len(Seq3(k)[1]) + Len(Seq3(k3)[2])) % 6] : k \in Kinds \ {"message"}, k2 \in Kinds, k3 \in Kinds \ {"message"}}
 
+\* deep nesting: dp levels of sub-Messages below the top, every level holding its child in a one-item field (inline) or with a sibling (array)
+RECURSIVE Deep(_, _)
+Deep(dp, arr) == [what |-> <<dp % 256, dp \div 256, 0, 0>>,
+                  fields |-> <<Fld(<<108>>, "int32", 1), Fld(<<115>>, "string", 2)>> \o
+                             (IF dp = 0 THEN <<>> ELSE <<[name |-> <<99>>, type |-> TC_MESSAGE,
+                                                         items |-> <<Deep(dp - 1, arr)>> \o (IF arr THEN <<Leaf(<<7, 0, 0, 0>>, "bool", << <<1>> >>)>> ELSE <<>>)]>>)]
+Deeps == {[m |-> Deep(dp, arr), d |-> dd] : dp \in {31, 32, 33, 64}, arr \in BOOLEAN, dd \in {0, 5}} \cup {[m |-> Deep(200, arr), d |-> 0] : arr \in BOOLEAN}
+\* fields with ZERO items (left behind in a Message by ShareName + removal through the other Message): of every kind; alone, first, in the middle, last,
+\* two of them, and inside a sub-Message (one-item and two-item Message field)
+ZeroF(nm, k) == [name |-> nm, type |-> TCK(k), items |-> <<>>]
+ZeroMsgs(k) == LET z == ZeroF(NB, k) f1 == Fld(NA, "int32", 1) f2 == Fld(<<99>>, "string", 2)
+                   inner == [what |-> <<9, 0, 0, 0>>, fields |-> <<f1, z>>] IN
+               {[what |-> W0, fields |-> <<z>>], [what |-> W0, fields |-> <<z, f1>>], [what |-> W0, fields |-> <<f1, z, f2>>], [what |-> W0, fields |-> <<f2, f1, z>>],
+                [what |-> W0, fields |-> <<z, ZeroF(<<122>>, "int8")>>],
+                [what |-> W0, fields |-> <<[name |-> <<109>>, type |-> TC_MESSAGE, items |-> <<inner>>], f2>>],
+                [what |-> W0, fields |-> <<[name |-> <<109>>, type |-> TC_MESSAGE, items |-> <<inner, [what |-> <<0, 0, 0, 0>>, fields |-> <<>>], inner>>]>>]}
+Zeros == {[m |-> mm, d |-> dd] : mm \in UNION {ZeroMsgs(k) : k \in Kinds}, dd \in {0, 1}}
+
 \* every detour for the single-field, nested and long vectors; one detour (varying with the item counts and the field order) per pair
 AllD(S) == {[m |-> mm, d |-> dd] : mm \in S, dd \in 0..5}
-Vectors == CASE Part = "single" -> AllD(Single) [] Part = "triples" -> Triples [] Part = "nest" -> AllD(Nest \cup NestNames) [] Part = "long" -> AllD(Long)
+Vectors == CASE Part = "single" -> AllD(Single) [] Part = "triples" -> Triples [] Part = "deep" -> Deeps [] Part = "zero" -> Zeros [] Part = "nest" -> AllD(Nest \cup NestNames) [] Part = "long" -> AllD(Long)
              [] Part = "all" -> AllD(Single \cup Nest \cup NestNames \cup Long) \cup UNION {Pairs(k) : k \in Kinds}
              [] OTHER -> Pairs(Part)
 
@@ -78,5 +96,5 @@ Spec == Init /\ [][Next]_<<v, d>>
 VecOK == /\ WellFormed(v)
          /\ Build(DetourOf(v, d)) = v            \* the script the C++ side executes leaves exactly this Message
          /\ LET b == Flatten(v) u == Unflatten(b) IN u.ok /\ u.msg = v /\ Len(b) = FlattenedSize(v) /\ Flatten(u.msg) = b
-Emit == PrintT("@@" \o ToJson([m |-> v, d |-> d, s |-> DetourOf(v, d), b |-> Flatten(v), z |-> FlattenedSize(v), py |-> Common("python", v), pyn |-> Common("pynative", v), f38 |-> F38(v), f39 |-> F39(v)]))
+Emit == PrintT("@@" \o ToJson([m |-> v, d |-> d, s |-> DetourOf(v, d), zero |-> HasZero(v), f45mini |-> F45mini(v), f45micro |-> F45micro(v), mb |-> IF F45micro(v) THEN Flatten(DropZeroRaw(v)) ELSE <<>>, b |-> Flatten(v), z |-> FlattenedSize(v), py |-> Common("python", v), pyn |-> Common("pynative", v), f38 |-> F38(v), f39 |-> F39(v)]))
 =============================================================================
